@@ -43,9 +43,10 @@ def _states_in(payload):
 def state_report(kind: int, dv: int, sv: int, mv: int, val: str, flag: bool) -> str:
     """
     One state transaction (0 metric in mds0, 1 metrics in two MDS, 2 alert, 3 component, 4 operational, 5 context new +
-    context update in one transaction): exactly one report of the matching action with the committed version group,
+    context update in one transaction, 6 a context state built by the application WITHOUT a handle, handed to add_state):
+    exactly one report of the matching action with the committed version group,
     exactly the changed states with committed values / counters, each under the MDS it belongs to.
-    pre: 0 <= kind <= 5
+    pre: 0 <= kind <= 6
     pre: dv >= 0
     pre: sv >= 0
     pre: mv >= 0
@@ -54,7 +55,7 @@ def state_report(kind: int, dv: int, sv: int, mv: int, val: str, flag: bool) -> 
     """
     orc = Oracle()
     try:
-        target = {0: 'm0', 1: 'm0', 2: 'ac0', 3: 'vmd0', 4: 'op0', 5: 'm0'}[kind]
+        target = {0: 'm0', 1: 'm0', 2: 'ac0', 3: 'vmd0', 4: 'op0', 5: 'm0', 6: 'm0'}[kind]
         pm, cap = _prov(dv, sv, mv, target, two_mds=(kind == 1))
         expect = {}       # handle -> (source mds, StateVersion, value probe)
         frag = ''
@@ -92,6 +93,16 @@ def state_report(kind: int, dv: int, sv: int, mv: int, val: str, flag: bool) -> 
             expect['op0'] = ('mds0', sv + 1, pm_types.OperatingMode.DISABLED if flag else pm_types.OperatingMode.NA)
             frag = 'EpisodicOperationalStateReport'
             probe = lambda s: s.OperatingMode  # noqa: E731
+        elif kind == 6:
+            nw = pm.data_model.mk_state_container(pm.descriptions.handle.get_one('pc0'))
+            nw.CoreData = pm_types.PatientDemographicsCoreData()
+            nw.CoreData.Givenname = val
+            with pm.context_state_transaction() as tr:
+                tr.add_state(nw)
+            orc.check(nw.Handle is not None, 'context-state-committed-without-handle')
+            expect[nw.Handle] = ('mds0', 0, val)
+            frag = 'EpisodicContextReport'
+            probe = lambda s: s.CoreData.Givenname  # noqa: E731
         else:
             with pm.context_state_transaction() as tr:
                 st = tr.get_context_state('lcs0')
@@ -109,7 +120,7 @@ def state_report(kind: int, dv: int, sv: int, mv: int, val: str, flag: bool) -> 
         _check_header(pm, orc, payload, vg, mv)
         got = {}
         for src, st in _states_in(payload):
-            h = st.Handle if kind == 5 else st.DescriptorHandle
+            h = st.Handle if kind in (5, 6) else st.DescriptorHandle
             orc.check(h not in got, 'state-twice-in-report')
             got[h] = (src, st.StateVersion, probe(st))
             orc.check(src == st.source_mds, 'report-part-source-mds!=state-source-mds')
@@ -121,7 +132,7 @@ def state_report(kind: int, dv: int, sv: int, mv: int, val: str, flag: bool) -> 
                 orc.check(got[h][2] == expect[h][2], 'reported-value!=committed')
         # the report shows what the MDIB holds at that version
         for h in expect:
-            m = pm.context_states.handle.get_one(h) if kind == 5 else pm.states.descriptor_handle.get_one(h)
+            m = pm.context_states.handle.get_one(h) if kind in (5, 6) else pm.states.descriptor_handle.get_one(h)
             orc.check(m.StateVersion == expect[h][1] and probe(m) == expect[h][2], 'mdib-content!=reported-content')
     except Exception as ex:  # noqa: BLE001
         return exc_result(orc, ex)
@@ -133,10 +144,11 @@ def description_report(kind: int, dv: int, sv: int, mv: int, pdv: int, val: str)
     One descriptor transaction (0 update m0 + its state, 1 create m9 + state, 2 delete m1, 3 delete subtree vmd0,
     4 create in the second MDS, 5 delete child m1 and then its parent ch0 explicitly, child first, 6 update of a real-time
     sample array descriptor (its state is re-versioned: the transaction result has rt updates), 7 the same together with an
-    update of m0, 8 update of an alert condition and of a context descriptor in one transaction): the DescriptionModificationReport carries the committed version group, one part per changed
+    update of m0, 8 update of an alert condition and of a context descriptor in one transaction, 9 TWO children created below
+    ch0 (the parent is touched twice), 10 the parent ch0 updated and its child m1 deleted): the DescriptionModificationReport carries the committed version group, one part per changed
     descriptor with the right modification type, parent, source MDS, committed DescriptorVersion, and the related states;
     the state reports sent along carry the same version.
-    pre: 0 <= kind <= 8
+    pre: 0 <= kind <= 10
     pre: dv >= 0
     pre: sv >= 0
     pre: mv >= 0
@@ -180,6 +192,21 @@ def description_report(kind: int, dv: int, sv: int, mv: int, pdv: int, val: str)
                 for h, p in (('m0', 'ch0'), ('m1', 'ch0'), ('ch0', 'vmd0'), ('vmd0', 'mds0')):
                     exp[h] = (dmt.DELETE, p, 'mds0', None, 0)
                 exp['mds0'] = (dmt.UPDATE, None, 'mds0', 1, 1)
+            elif kind == 9:
+                for h in ('m8', 'm9'):
+                    nd = dc.StringMetricDescriptorContainer(h, 'ch0')
+                    nd.Unit = pm_types.CodedValue('u')
+                    nd.MetricCategory = pm_types.MetricCategory.MEASUREMENT
+                    nd.MetricAvailability = pm_types.MetricAvailability.CONTINUOUS
+                    tr.add_descriptor(nd, state_container=pm.data_model.get_state_class_for_descriptor(nd)(nd))
+                    exp[h] = (dmt.CREATE, 'ch0', 'mds0', 0, 1)
+                exp['ch0'] = (dmt.UPDATE, 'vmd0', 'mds0', pdv + 2, 1)
+            elif kind == 10:
+                d = tr.get_descriptor('ch0')
+                d.SafetyClassification = pm_types.SafetyClassification.MED_A
+                tr.remove_descriptor('m1')
+                exp['m1'] = (dmt.DELETE, 'ch0', 'mds0', None, 0)
+                exp['ch0'] = (dmt.UPDATE, 'vmd0', 'mds0', pdv + 2, 1)
             elif kind in (6, 7):
                 d = tr.get_descriptor('rt0')
                 d.SafetyClassification = pm_types.SafetyClassification.MED_A
